@@ -962,6 +962,15 @@ class TermBuilder:
                                                                ("." + str(c.target) if c.kind == "method_unknown" else str(c.target)))
             if c.kind == "method_unknown":
                 args = [self.term(c.receiver, at)] + args
+            if c.kind == "local":
+                try:
+                    ft = self.name_term(str(c.target), at)
+                except Exception:
+                    ft = None
+                if ft is not None:
+                    pieces = tm.pieces_of(ft)
+                    if len(pieces) > 1 and all(isinstance(v, Sym) and "." in v.name and "@" not in v.name for _g, v in pieces):
+                        return PW([(g_, App(v.name, args, kw)) for g_, v in pieces])
             return App(name, args, kw)
         if c.kind in ("internal",) and c.func is not None:
             if self._inlinable(c.func):
@@ -1005,6 +1014,21 @@ class TermBuilder:
                 return App("numpy.copy", (recv,))
             return App("." + c.target, [recv] + args, kw)
         if c.kind == "local":
+            # a local variable that holds one of several known functions:  f = a if c else b;  f(x)   ==   pw{c -> a(x); !c -> b(x)}
+            try:
+                ft = self.name_term(str(c.target), at)
+            except Exception:
+                ft = None
+            if ft is not None:
+                pieces = tm.pieces_of(ft)
+                if all(isinstance(v, Sym) and ("." in v.name) and "@" not in v.name for _g, v in pieces):
+                    out = []
+                    for g_, v in pieces:
+                        if v.name in self.ana.prog.functions:
+                            out.append((g_, App(v.name, args, kw)))
+                        else:
+                            out.append((g_, tm.make_app(v.name, args, kw)))
+                    return out[0][1] if len(out) == 1 and out[0][0] == tm.TRUE else PW(out)
             return App("local:" + str(c.target), args, kw)
         return App("<call>", args, kw)
 
@@ -1244,6 +1268,48 @@ class TermBuilder:
                                      via=s2.via or f.qualname))
                 for k_, v_ in sub.loopvars.items():
                     self.loopvars.setdefault(k_, v_)
+        return self._fuse_row_buffers(out)
+
+    _FRESH_ARRAYS = ("numpy.zeros", "numpy.empty", "numpy.ones", "numpy.full", "numpy.zeros_like", "numpy.empty_like")
+
+    def _fuse_row_buffers(self, stores: List[Store]) -> List[Store]:
+        """row = zeros(K); for k: row[k] = v(k); A[p, :] = row      is the same set of writes as      for k: A[p, k] = v(k)
+        when `row` is allocated afresh in the iteration that copies it.  The per-cell stores are re-expressed on A."""
+        out = list(stores)
+        for s1 in list(stores):
+            if s1.idx is None or s1.aug is not None or not isinstance(s1.value, Sym) or not s1.loops:
+                continue
+            full = [i for i, x in enumerate(s1.idx) if isinstance(x, Slc) and x.lo is None and x.hi is None and x.step is None]
+            if len(full) != 1:
+                continue
+            rname = s1.value.name
+            defs = self.rd.reaching(s1.node, rname)
+            if not defs:
+                continue
+            fresh = True
+            for d in defs:
+                v = d.ast.value if d.kind == "stmt" and isinstance(d.ast, (ast.Assign, ast.AnnAssign)) else None
+                r = self.ana.res.fq_of_expr(self.fi, v.func) if isinstance(v, ast.Call) else None
+                if not (r and r[1] in self._FRESH_ARRAYS and s1.loops[-1] in self.cfg.enclosing_loops(d)):
+                    fresh = False
+            if not fresh:
+                continue
+            cells = [s2 for s2 in stores if s2.base_name == rname and s2.idx is not None]
+            if not cells or any(len(s2.idx) != 1 or isinstance(s2.idx[0], Slc) or s2.loops[:len(s1.loops)] != s1.loops
+                                or len(s2.loops) != len(s1.loops) + 1 for s2 in cells):
+                continue
+            # the cell loop finishes before the row is copied
+            if any(not self.cfg.dominates(self.cfg.stmt_node[id(s2.loops[-1])], s1.node) or s1.loops[-1] is s2.loops[-1] for s2 in cells):
+                continue
+            others = [m for m in self.mutated.get(rname, []) if not isinstance(m, ast.Assign)]
+            if others:
+                continue
+            for s2 in cells:
+                idx = tuple(s2.idx[0] if i == full[0] else x for i, x in enumerate(s1.idx))
+                out.append(Store(s2.node, s2.stmt, s2.target, s1.base, s1.base_name, idx, None, s2.value, tm.conj([s1.guards, s2.guards]),
+                                 s2.loops, s2.aug, s2.loop_ranges, s2.loop_vars, via=s2.via))
+                out.remove(s2)
+            out.remove(s1)
         return out
 
 
